@@ -122,9 +122,9 @@ Proof.
 Qed.
 
 (* ================= Part 2 ================= *)
-Lemma length_set_nth : forall A n (x : A) l, List.length (set_nth n x l) = length l.
+Lemma length_set_nth : forall A n (x : A) l, List.length (set_nth n x l) = List.length l.
 Proof. intros A n x l. revert n. induction l as [|y r IH]; intros [|n]; cbn; try reflexivity. rewrite IH. reflexivity. Qed.
-Lemma nth_set_nth : forall A n (x d : A) l, (n < length l)%nat -> nth n (set_nth n x l) d = x.
+Lemma nth_set_nth : forall A n (x d : A) l, (n < List.length l)%nat -> nth n (set_nth n x l) d = x.
 Proof.
   intros A n x d l. revert n. induction l as [|y r IH]; intros [|n] H; cbn in *; try lia; [reflexivity|].
   apply IH. lia.
